@@ -1,36 +1,36 @@
 import json, os, shutil, glob
-W='u'
+W='v'
 rows = {
- 'C01': ("query events with a non-zero error code skipped ('the statement failed on the master')",
-         "a DDL / DML query event logged with an error code",
-         "C01: count, event-count, order (through the killed-statement error codes of wave q)"),
- 'C02': ("memory bound: an open transaction is committed and re-opened at its 16384th row event",
-         "a transaction with at least 16384 row events",
-         "C02: early-delivery, grouping - **missed at first** (bulk transactions went up to 4100 statements; one in five now has 16400)"),
- 'C03': ("an unknown-category statement resets the transaction state (buffered changes dropped, autocommit on)",
-         "SAVEPOINT (or any unknown statement) between BEGIN and the commit with a row change behind it",
-         "C03: content:extra-call, resume-suffix, crash-restart-exactly-once"),
- 'C04': ("accepting the empty transaction of a ROLLBACK does not move the position",
-         "a rolled-back group accepted as last transaction of an attempt, then a retry",
-         "C04: resume-coordinate"),
- 'C05': ("Stream holds a mutex for its whole run and SetBinlogPosition takes it",
-         "a handler that calls SetBinlogPosition on the Streamer that is delivering to it",
-         "C05: hang - **missed at first**, two changes: a sixth of the attempts now have a handler that records its progress with SetBinlogPosition(tx.NextPosition), and the process watchdog attributes a case that cannot step because library code waits for a sync lock (not only one that spins)"),
- 'C06': ("a TABLE_MAP whose metadata block is longer than its columns account for is accepted when the master announces an 8.x version",
-         "an 8.x format description and a table map with an over-long metadata block",
-         "C06: stream-nil-on-failure - **missed at first** (the decode-failure unit now also comes as a table map whose metadata block is two bytes too long)"),
- 'C07': ("a recover() in Stream turns a callback panic into an error and stores Stream's still-zero local position",
-         "a handler / mapper panic, then another Stream call",
-         "C07: offset - **missed at first** (panicking callbacks are now part of the C07 family; when the panic comes *out of* Stream the next request may be for the position that call started from, when Stream returns an error the stored position must be right)"),
- 'C08': ("per-connection ring of 1026 copy buffers behind a 1024-deep event channel",
-         "a retained by-reference value and 1026 further packets on the same connection",
-         "C08: later-delivery-corrupted, mutated-after-delivery"),
- 'C15': ("schema / table names interned process-wide by (length, first 64 bytes)",
-         "two names of the same length that agree in their first 64 bytes",
-         "C15: attribution, mapper-call, wrong-table - **missed at first** (one history in twelve now has two tables whose names or schemas are 65..200 bytes long and differ in one late byte)"),
- 'C17': ("TypeName() of ignored events looked up in a 39-entry table while a transaction is open",
-         "a well-formed event of type 39 or above between BEGIN and its commit",
-         "C17: panic"),
+ 'C01': ("shared clock printer for JSON TIME and DATETIME takes the DATETIME hour mask (5 bits)",
+         "a JSON document holding an opaque TIME scalar of 32 hours or more",
+         "C01: value:type245 - **missed at first** (the JSON generator had no opaque TIME scalars; it now emits them, signed, up to 838 hours, with microseconds)"),
+ 'C02': ("autocommitted rows events are committed only when their flags carry STMT_END_F",
+         "a row change outside BEGIN..COMMIT whose rows-event flags have bit 0 clear",
+         "C02: grouping - **missed at first** (flags words other than 1 were only written inside transactions; one autocommitted rows event in six now carries a random flags word)"),
+ 'C03': ("QUERY events with a non-zero error code are skipped before their category is looked at",
+         "a stand-alone statement logged with an error code",
+         "C03: content:count, end-label, resume-suffix, crash-restart-exactly-once"),
+ 'C04': ("BEGIN / COMMIT recognised by bytes.HasSuffix on the event buffer",
+         "a DDL statement whose text ends in the bytes BEGIN or COMMIT",
+         "C04: lost, reordered"),
+ 'C05': ("reader context detached from the caller's + a non-blocking receive in front of the parser's select: the cancellation is only looked at when no event is ready",
+         "a cancellation while the master is ahead of the parser (a backlog in the socket buffer) and a parser slower than the reader",
+         "C05: cancel-ignored - **missed at first**: new rule (more than 40 handler calls after the cancellation fired; the unchanged code leaves with probability 1/2 or more per event) and a backlog family (one fault case in sixteen: 100..150 small transactions, whole stream buffered at once, early cancel, every parser log call a scheduling point so that the reader always has the next event parked)"),
+ 'C06': ("the skip of the dump's opening ROTATE moved in front of the validity gate",
+         "a malformed first event whose type byte says ROTATE",
+         "C06: stream-nil-on-failure"),
+ 'C07': ("SetBinlogPosition writes a start slot that the resume slot shadows once an attempt has run",
+         "SetBinlogPosition between two Stream calls of one Streamer",
+         "C07: offset"),
+ 'C08': ("rows-event buffers recycled when no present column decodes by reference, the column masks being uint64",
+         "a table of more than 64 columns whose by-reference columns all sit behind the 64th, a retained value, a following packet that fits the buffer",
+         "C08: later-delivery-corrupted, scribble-propagated - **missed at first** (C08 had no wide tables; one table in four now has 66..600 columns, half of them with numbers and dates in front and the by-reference columns behind the 64th)"),
+ 'C15': ("a table map with a column type the parser has no decoder for is skipped instead of ending the stream",
+         "such a table map for a table id that is already cached, then rows for it",
+         "C15: mismatch-accepted - **missed at first** (the re-announcement poison unit now also comes with an unchanged shape and one column announced as type 20 / 242 / 243 / 244; the rows parse under the previous map)"),
+ 'C17': ("on the error path the parser's position is only stored if !pos.IsZero(), which is also true for an empty file name",
+         "a dump started with an empty file name, accepted transactions, then a malformed packet",
+         "C17: resume-coordinate"),
 }
 for p,(chg,needs,caught) in rows.items():
     src=f'/tmp/wt-{p}-{W}/_seeded'
